@@ -336,7 +336,28 @@ func (m *Agree) End(c *vnet.Cluster) {
 						sig = "early-unverified-commit"
 					}
 				}
-				m.fail(c, sig, "fork at height %d: n%d has %s, n%d has %s", h, l[0].node, l[0].hash, a.node, a.hash)
+				certs := ""
+				if m.Cert != nil {
+					for _, ci := range m.Cert.Infos {
+						if ci.Height == h && !ci.Pre && (ci.Node == a.node || ci.Node == l[0].node) {
+							certs += fmt.Sprintf(" [n%d view %d block %s: %d valid, %d invalid stored before the proposal, %d other invalid, %d other-view; M=%d]", ci.Node, ci.View, ci.Hash, ci.Valid, ci.InvalidEarly, ci.InvalidLate, ci.OtherView, ci.M)
+						}
+					}
+				}
+				m.fail(c, sig, "fork at height %d: n%d has %s, n%d has %s; certificates:%s", h, l[0].node, l[0].hash, a.node, a.hash, certs)
+				if k := len(m.Viols); k > 0 {
+					var ex []string
+					for _, e := range c.Trace {
+						rel := e.P != nil && e.P.Hgt == h && (e.P.T == dbft.CommitType || e.P.T == dbft.PrepareRequestType || e.P.T == dbft.PreCommitType)
+						if (e.Node == a.node || e.Node == l[0].node) && (e.Kind == vnet.KProcessBlock || rel && (e.Kind == vnet.KAPICall || e.Kind == vnet.KSend)) || e.Kind == vnet.KAdversary && rel {
+							ex = append(ex, e.String())
+						}
+						if len(ex) >= 300 {
+							break
+						}
+					}
+					m.Viols[k-1].Extra = ex
+				}
 				break
 			}
 		}
